@@ -361,6 +361,12 @@ func (c *Config) validateCircuitBreaker() error {
 		if c.CircuitBreaker.IntervalSeconds <= 0 {
 			return fmt.Errorf("circuit breaker interval must be positive (got %d)", c.CircuitBreaker.IntervalSeconds)
 		}
+		// Only max_requests trial requests are admitted while the breaker is
+		// half-open, so it could never close again if it needed more successes
+		// than that (0 = unset: the breaker then admits success_threshold trials).
+		if c.CircuitBreaker.MaxRequests > 0 && c.CircuitBreaker.SuccessThreshold > c.CircuitBreaker.MaxRequests {
+			return fmt.Errorf("circuit breaker success threshold (%d) must not exceed max requests (%d)", c.CircuitBreaker.SuccessThreshold, c.CircuitBreaker.MaxRequests)
+		}
 	}
 	return nil
 }
